@@ -102,6 +102,26 @@ def reversal_specs(ctx, n):
     return out
 
 
+def connected_nodes(spec, closed):
+    """nodes reachable from a tank / reservoir over links that are not in `closed` (the links REPORTED Closed at that step):
+    the check's own definition of 'connected' -- WNTR's `_is_isolated` flags are never consulted"""
+    adj = {nd["name"]: [] for nd in spec["nodes"]}
+    for l in G.effective_links(spec):
+        if l["name"] in closed:
+            continue
+        adj[l["start"]].append(l["end"])
+        adj[l["end"]].append(l["start"])
+    seen = set(nd["name"] for nd in spec["nodes"] if nd["type"] != "junction")
+    stack = list(seen)
+    while stack:
+        n = stack.pop()
+        for k in adj[n]:
+            if k not in seen:
+                seen.add(k)
+                stack.append(k)
+    return seen
+
+
 def run_sim_capture(wntr, spec):
     """run the REAL simulator; returns dict(wn, res, frames, norms, error) -- frames[k] describes the k-th saved step"""
     import numpy as np
@@ -170,7 +190,8 @@ def features(spec):
         "link_tank_to_tank": any(l["start"] in tanks and l["end"] in tanks for l in elinks),
         "link_reservoir_to_reservoir": any(l["start"] not in tanks and l["end"] not in tanks and
                                            {l["start"], l["end"]} <= set(n["name"] for n in srcs) for l in elinks),
-        "valve_setting_changed_by_control": bool(spec.get("controls")),
+        "valve_setting_changed_by_control": any(c.get("attr", "setting") == "setting" for c in spec.get("controls", [])),
+        "link_status_changed_by_control": any(c.get("attr") == "status" for c in spec.get("controls", [])),
         "reversed_links": any(e["op"] == "reverse" for e in spec.get("edits", [])),
         "end_node_reassigned": any(e["op"] != "reverse" for e in spec.get("edits", [])),
         "end_node_reassigned_to_tank": any(e["op"] != "reverse" and e["node"] in tanks for e in spec.get("edits", [])),
@@ -212,6 +233,9 @@ def gen_specs(ctx, n_random, n_scen):
     specs = []
     for i in range(n_scen):
         specs.append(G.scenario_network(rng, G.SCENARIOS[i % len(G.SCENARIOS)], variant=i // len(G.SCENARIOS)))
+    for v in range(2, 6):  # the remaining cut-set variants (the loop above gives variants 0 and 1)
+        if n_scen >= 2 * len(G.SCENARIOS):
+            specs.append(G.scenario_network(rng, "cutset", variant=v))
     for i in range(n_random):
         force = {}
         if i % 7 == 3:
